@@ -7,6 +7,7 @@ import (
 
 	plush "github.com/gobuffalo/plush/v5"
 
+	"verifharness/gen"
 	"verifharness/vrt"
 )
 
@@ -376,4 +377,23 @@ func TwoPositions() {
 		vrt.Assert(err == nil || !errors.Is(err, sentinel), "no failure is reported when no invoked helper failed")
 	}
 	vrt.Cover("done")
+}
+
+// ---- failing operations in every position the grammar of package gen offers:
+// the reference interpreter says which programs must fail (and which faults
+// are the tolerated unknown identifier)
+func init() {
+	vrt.Register("C05_generated_faults", GeneratedFaults)
+}
+
+func GeneratedFaults() {
+	p := gen.Profile{Ifs: true, Ctl: true, Loops: true, Lets: true, Faults: true, Unknown: true, Conds: 0, Vals: 0, Pres: 2, Posts: 2, Leafs: 2, Iters: 2}
+	if vrt.Tier() > 0 {
+		p.Pres, p.Posts, p.Leafs, p.Iters, p.Assigns, p.Elifs = 0, 0, 0, 4, true, true
+	}
+	g := &gen.G{P: p}
+	prog := []*gen.Stmt{g.Text()}
+	prog = append(prog, g.Block(gen.Cx{Inner: "x"}, 1)...)
+	prog = append(prog, g.Text())
+	gen.Check(prog, gen.NewData(1), "faults from the grammar")
 }
